@@ -59,6 +59,27 @@ type forestPrinter struct {
 // forestNodeExtra: optional per-node annotation bits (C01: does the scalar decode into a Go string / int).
 var forestNodeExtra func(n *yaml.Node) int
 
+// nodeIntDecBit: per-NODE answer bit 6 (Run/C19.v int_ok_run; the same bit C01 calls annIntDec): the scalar decodes
+// into a Go int with the real yaml.Node.Decode (strict.go parseGroup, `limit`, fix a6b0afc).
+func nodeIntDecBit(n *yaml.Node) int {
+	if n.Kind != yaml.ScalarNode {
+		return 0
+	}
+	ok := func() (ok bool) {
+		defer func() {
+			if recover() != nil {
+				ok = false
+			}
+		}()
+		var i int
+		return n.Decode(&i) == nil
+	}()
+	if ok {
+		return 1 << 6
+	}
+	return 0
+}
+
 func (p *forestPrinter) ann(v string) int {
 	if a, ok := p.memo[v]; ok {
 		return a
@@ -111,6 +132,7 @@ func (p *forestPrinter) node(n *yaml.Node) {
 	if forestNodeExtra != nil {
 		a |= forestNodeExtra(n)
 	}
+	a |= nodeIntDecBit(n)
 	var emb *yaml.Node
 	// parser.go parseNode only looks for YAML inside LITERAL block scalars (commit 147313f): the style condition is
 	// folded into the input, n_embedded is only provided where pint would call yaml.Unmarshal and succeed.
